@@ -355,13 +355,13 @@ type SparseConstInt16VectorJointIterator struct {
   idx int
   s1 ConstInt16
   s2 ConstScalar
+  ok bool
 }
 func (obj *SparseConstInt16VectorJointIterator) Index() int {
   return obj.idx
 }
 func (obj *SparseConstInt16VectorJointIterator) Ok() bool {
-  return !(obj.s1.GetInt16() == int16(0)) ||
-         !(obj.s2.GetInt16() == int16(0))
+  return obj.ok
 }
 func (obj *SparseConstInt16VectorJointIterator) Next() {
   ok1 := obj.it1.Ok()
@@ -382,6 +382,9 @@ func (obj *SparseConstInt16VectorJointIterator) Next() {
       obj.s2 = obj.it2.GetConst()
     }
   }
+  // the iterator is valid as long as one of the vectors delivered an entry,
+  // regardless of its value
+  obj.ok = ok1 || ok2
   if obj.s1 != ConstInt16(0) {
     obj.it1.Next()
   }
@@ -404,6 +407,7 @@ func (obj *SparseConstInt16VectorJointIterator) CloneConstJointIterator() Vector
   r.idx = obj.idx
   r.s1 = obj.s1
   r.s2 = obj.s2
+  r.ok = obj.ok
   return &r
 }
 /* math
